@@ -380,8 +380,93 @@ func runC09(w *World) {
 		w.stat("fault.crash_at."+at, 1)
 		n.crash()
 		w.nontriv = true
-		if _, ok := restart(fmt.Sprintf("crash at %s (directory held %v)", at, names), lo, hi); !ok {
+		ni, ok := restart(fmt.Sprintf("crash at %s (directory held %v)", at, names), lo, hi)
+		if !ok {
 			return
+		}
+		// second act (half of the runs): on the server recovered from the interrupted rewrite the
+		// dataset shrinks, the log is rewritten again - this time to the end -, two more writes are
+		// acknowledged and the server is restarted once more. Whatever the first rewrite left
+		// behind in the directory must not leak into the second one.
+		if w.knob("secondact", 2) == 1 {
+			for _, a := range writers {
+				a.paused = true
+			}
+			w.Settle()
+			want, _, _, _ := modelFromLog(ni.aofStream(), w.now())
+			if err := compareDump(want, ni.dump(), true); err != nil {
+				// (the recovered state was accepted above as the model after some log prefix; what
+				// the server now has on disk must describe the same state)
+				w.violate("C09/recovered", "after the restart the served dataset is not what its own log describes: %v", err)
+				return
+			}
+			lm2 := newLogModel(ni, want)
+			w.stepHooks = append(w.stepHooks, func() {
+				if n.inst == ni && !ni.dead {
+					lm2.poll() // entries must be consumed before a rewrite replaces the file
+				}
+			})
+			ob := newObserver(w, n)
+			ob.a.from = "127.0.0.1:50300"
+			drop := w.program("secondact", func(r *rand.Rand) []Cmd {
+				var p []Cmd
+				for _, k := range keys {
+					if r.Intn(2) == 0 {
+						p = append(p, Cmd{Args: []string{"DROP", k}})
+					}
+				}
+				p = append(p, Cmd{Args: []string{"DROP", "zheavy"}})
+				return p
+			})
+			for _, c := range drop {
+				if _, ok := ob.do(c.Args...); !ok {
+					return
+				}
+			}
+			began := false
+			if _, ok := ob.do("AOFSHRINK"); !ok {
+				return
+			}
+			w.Drain(120*time.Second, func() bool {
+				if ni.srv.shrinking {
+					began = true
+				}
+				return began && !ni.srv.shrinking && ni.atPoint == ""
+			})
+			if w.failed() {
+				return
+			}
+			if !began || ni.srv.shrinking {
+				w.harnessErr("second rewrite did not run to completion")
+				return
+			}
+			if _, ok := ob.do("SET", keys[0], "post1", "FIELD", "speed", "7", "POINT", "11", "12"); !ok {
+				return
+			}
+			if _, ok := ob.do("SET", "after", "post2", "STRING", "written after the second rewrite"); !ok {
+				return
+			}
+			w.Settle()
+			lm2.poll()
+			if lm2.bad != nil {
+				w.violate("C09/restart", "after the second rewrite the log does not parse as whole commands: %v", lm2.bad)
+				return
+			}
+			if w.knob("secondclean", 2) == 1 {
+				n.stopClean()
+			} else {
+				n.crash()
+			}
+			n2 := n.start()
+			if n2.stopped || !n2.ready() {
+				w.violate("C09/restart", "after a second, completed rewrite on a directory that an interrupted rewrite had left behind, the server does not start: %v", n2.serveErr)
+				return
+			}
+			if err := compareDump(lm2.cur(), n2.dump(), true); err != nil {
+				w.violate("C09/recovered", "second act (interrupted rewrite, restart, DROPs, completed rewrite, two writes, restart): the recovered dataset is not the acknowledged one: %v", err)
+				return
+			}
+			w.stat("probe.second_rewrite_after_interrupted_one", 1)
 		}
 	} else {
 		if !allDone() {
